@@ -343,7 +343,7 @@ def check_ff(ff, loaded):
 
 
 FAULTS = ['unknown_section', 'undefined_block_atom', 'duplicate_block_atom', 'unbalanced_brace', 'prefix_order_contradiction',
-          'wrong_atom_count', 'line_in_unknown_subsection', 'index_out_of_range', 'index_zero', 'too_many_atoms']
+          'wrong_atom_count', 'line_in_unknown_subsection', 'index_out_of_range', 'index_zero', 'too_many_atoms', 'undefined_edge_atom']
 
 
 def inject_fault(rng, ff, fault):
@@ -360,7 +360,7 @@ def inject_fault(rng, ff, fault):
             return None
         i = rng.choice(idx)
         return lines[:i] + [lines[i].replace('}', '', 1) if rng.random() < 0.5 else lines[i].replace('{', '', 1)] + lines[i + 1:]
-    if fault in ('undefined_block_atom', 'duplicate_block_atom', 'wrong_atom_count', 'index_out_of_range', 'index_zero', 'too_many_atoms') and blocks:
+    if fault in ('undefined_block_atom', 'duplicate_block_atom', 'wrong_atom_count', 'index_out_of_range', 'index_zero', 'too_many_atoms', 'undefined_edge_atom') and blocks:
         b = rng.choice(blocks)
         start = lines.index('%s %d' % (b['name'], b['nrexcl']))
         atoms_end = start + 2 + len(b['atoms'])
@@ -368,6 +368,10 @@ def inject_fault(rng, ff, fault):
             return lines[:atoms_end] + [lines[start + 2]] + lines[atoms_end:]
         if fault == 'undefined_block_atom':
             return lines[:atoms_end] + ['[ bonds ]', '%s NOPE 1 0.3 100' % b['atoms'][0]['name']] + lines[atoms_end:]
+        if fault == 'undefined_edge_atom':
+            # an [ edges ] line of a block that names an atom the block does not declare
+            a = b['atoms'][0]['name']
+            return lines[:atoms_end] + ['[ edges ]', '%s NOPE' % a if rng.random() < 0.5 else 'NOPE %s' % a] + lines[atoms_end:]
         if fault == 'too_many_atoms':
             # three atoms before the explicit delimiter of a two-atom interaction
             a = b['atoms'][0]['name']
